@@ -252,7 +252,10 @@ def make_op(kind, rng, case, ref, state, n_do_fit):
         return ["set_parameter_values", vals] if vals else None
     if kind == "set_all_parameter_values":
         vals = gen.perturbed_params(rng, m, 0.1)
-        return ["set_all_parameter_values", [float(ref.fixed.get(nm, v)) for nm, v in zip(m.pnames, vals)]]
+        op = ["set_all_parameter_values", [float(ref.fixed.get(nm, v)) for nm, v in zip(m.pnames, vals)]]
+        if rng.random() < 0.5:
+            op.append("same-array")  # handed over in one re-used numpy array (changed in place between calls), as a scan loop does
+        return op
     free = [nm for nm in m.pnames if nm not in ref.fixed]
     if kind == "fix_parameter":
         if len(free) <= 1:
@@ -521,7 +524,7 @@ def run_case(ctx, case):
             if not tmpl:
                 core = [o for o in CORE_OBS if o in obs_names] if case.get("round", 0) < 2 else list(obs_names)
                 picks = ["cost_function_value", "get_result_dict()"] + [core[int(i)] for i in rng.choice(len(core), size=4, replace=False) if core[int(i)] not in ("cost_function_value", "get_result_dict()")]
-                pre = {"enable_error": ["add_error", "add_error", "disable_error"], "disable_error": ["add_error", "add_error"], "release_parameter": ["fix_parameter"], "unlimit_parameter": ["limit_parameter"]}.get(case["template"], [])
+                pre = {"enable_error": ["add_error", "add_error", "disable_error"], "disable_error": ["add_error", "add_error"], "release_parameter": ["fix_parameter"], "unlimit_parameter": ["limit_parameter"], "set_all_parameter_values": ["set_all_parameter_values"]}.get(case["template"], [])
                 if case.get("after_fit") and case["template"] != "do_fit":
                     pre = pre + ["do_fit"]
                 if case.get("after_fit"):
@@ -542,6 +545,8 @@ def run_case(ctx, case):
                 op = make_op(arg, rng, case, live.ref, state, n_do_fit)
                 if op is None:
                     continue
+            if case["template"] == "set_all_parameter_values" and op[0] == "set_all_parameter_values" and len(op) == 2:
+                op.append("same-array")  # both hand-overs of the template through one re-used array
             if case.get("first_source_uncorrelated") and op[0] == "add_error" and not live.ref.sources:
                 op[1]["corr"] = 0.0  # the fit then runs on an uncorrelated total (kafe2 selects a pointwise cost node for it)
         else:
